@@ -186,13 +186,14 @@ Fixpoint attrs_diff_loop (a1 a2 : list attr) : Z :=
   | x :: r1, y :: r2 =>
       (if negb (a_type x =? a_type y) || negb (Z.of_nat (length (a_vals x)) =? Z.of_nat (length (a_vals y)))
           || negb (zlist_eqb (a_name x) (a_name y))
-       then 0                                         (* "Different information for attribute": continue *)
+       then sds_attr_info_counted                     (* "Different information for attribute": counted? (regenerated) *)
        else if zlist_eqb (a_vals x) (a_vals y) then 0 else 1)
       + attrs_diff_loop r1 r2
   | _, _ => 0
   end.
 Definition sds_attrs_diff (a1 a2 : list attr) : Z :=
-  if negb (Z.of_nat (length a1) =? Z.of_nat (length a2)) then 0 else attrs_diff_loop a1 a2.
+  if negb (Z.of_nat (length a1) =? Z.of_nat (length a2)) then sds_attr_number_counted   (* "Different number of attributes" *)
+  else attrs_diff_loop a1 a2.
 
 (** diff_sds with the default options (compare data and local attributes) *)
 Definition diff_sds_m (t1 : Z) (d1 v1 : list Z) (a1 : list attr) (t2 : Z) (d2 v2 : list Z) (a2 : list attr) : Z :=
@@ -212,7 +213,7 @@ Definition diff_gr_m (t1 c1 x1 y1 : Z) (v1 : list Z) (t2 c2 x2 y2 : Z) (v2 : lis
 
 (** vdata_cmp: one difference per Vdata whose records differ *)
 Definition diff_vs_m (n1 : Z) (f1 : list (list Z * (Z * Z))) (v1 : list Z) (n2 : Z) (f2 : list (list Z * (Z * Z))) (v2 : list Z) : Z :=
-  if negb (n1 =? n2) || negb (list_eqb field_eqb f1 f2) then 0      (* "Different attributes": nothing counted *)
+  if negb (n1 =? n2) || negb (list_eqb field_eqb f1 f2) then vs_header_counted   (* differing headers: counted? (regenerated) *)
   else if zlist_eqb v1 v2 then 0 else 1.
 
 (** diff(): the switch on tag1 (regenerated), then the per-kind routine.  Both objects must be of the kind the
@@ -484,11 +485,11 @@ Definition attr_shape (a b : attr) : Prop :=
 Definition comparable_body (x y : body) : Prop :=
   match x, y with
   | BSds t1 d1 v1 a1, BSds t2 d2 v2 a2 =>
-      t1 = t2 /\ d1 = d2 /\ v1 <> [] /\ length v1 = length v2 /\ elem_domain t1 v1 /\ elem_domain t1 v2 /\ Forall2 attr_shape a1 a2
+      t1 = t2 /\ d1 = d2 /\ v1 <> [] /\ length v1 = length v2 /\ elem_domain t1 v1 /\ elem_domain t1 v2
   | BGr t1 c1 x1 y1 v1, BGr t2 c2 x2 y2 v2 =>
       t1 = t2 /\ c1 = c2 /\ x1 = x2 /\ y1 = y2 /\ 0 <= x1 * y1 * c1 /\ Z.of_nat (length v1) = x1 * y1 * c1 /\
       Z.of_nat (length v2) = x1 * y1 * c1 /\ elem_domain t1 v1 /\ elem_domain t1 v2
-  | BVd n1 f1 v1, BVd n2 f2 v2 => n1 = n2 /\ f1 = f2
+  | BVd n1 f1 v1, BVd n2 f2 v2 => True      (* any two Vdatas: differing headers are counted *)
   | BVg, BVg => True
   | _, _ => False
   end.
@@ -499,3 +500,47 @@ Definition comparable (f1 f2 : file) : Prop :=
   map o_name (f_objs f1) = map o_name (f_objs f2) /\
   Forall2 (fun a b => comparable_body (o_body a) (o_body b)) (f_objs f1) (f_objs f2) /\
   NoDup (map a_name (f_gattrs f1)) /\ NoDup (map a_name (f_gattrs f2)).
+
+(* ------------------------------------------------------------------------------------------ *)
+(** * hdiff_list.c : lone objects are added unless the table already holds them under one of their own tags *)
+
+(** table entries as (tag, ref).  The "already inserted while the Vgroups were traversed?" test of hdiff_list_gr /
+    hdiff_list_sds; whether it looks at the tag at all is regenerated (list_*_checks_tag) *)
+Definition already_listed (checks_tag : Z) (tags : list Z) (ref : Z) (tbl : list (Z * Z)) : bool :=
+  existsb (fun e => (if checks_tag =? 0 then true else zmem (fst e) tags) && (snd e =? ref)) tbl.
+
+Fixpoint list_lone (checks_tag : Z) (tags : list Z) (tag : Z) (refs : list Z) (tbl : list (Z * Z)) : list (Z * Z) :=
+  match refs with
+  | [] => tbl
+  | r :: rs => if already_listed checks_tag tags r tbl then list_lone checks_tag tags tag rs tbl
+               else list_lone checks_tag tags tag rs (tbl ++ [(tag, r)])
+  end.
+
+Definition gr_tags : list Z := [DFTAG_RI; DFTAG_CI; DFTAG_RIG; DFTAG_RI8; DFTAG_CI8; DFTAG_II8].
+Definition sds_tags : list Z := [DFTAG_SD; DFTAG_SDG; DFTAG_NDG].
+Definition list_lone_gr := list_lone list_gr_checks_tag gr_tags DFTAG_RI.
+Definition list_lone_sds := list_lone list_sds_checks_tag sds_tags DFTAG_NDG.
+
+(* ------------------------------------------------------------------------------------------ *)
+(** * hdp_vd.c : field selection (-f).  flds_indices is an array of MAXCHOICES slots; getFieldIndices writes the
+    indices of the Vdata's fields that were chosen into its first slots; whether the array is reset to "none"
+    for every Vdata is regenerated (field_indices_reset_per_vdata).  Arrays as lists: the slots after the
+    written ones keep what they held. *)
+Fixpoint chosen_indices (i : Z) (fields chosen : list (list Z)) : list Z :=
+  match fields with
+  | [] => []
+  | f :: r => (if existsb (zlist_eqb f) chosen then [i] else []) ++ chosen_indices (i + 1) r chosen
+  end.
+
+Definition field_indices (prev : list Z) (fields chosen : list (list Z)) : list Z :=
+  let now := chosen_indices 0 fields chosen in
+  if field_indices_reset_per_vdata =? 0 then now ++ skipn (length now) prev else now.
+
+(** indices used for each Vdata of a file, in order (the array lives across the loop over the Vdatas); a Vdata
+    none of whose fields was chosen (flds_match = 0) is not dumped at all *)
+Fixpoint fields_walk (prev : list Z) (vds : list (list (list Z))) (chosen : list (list Z)) : list (list Z) :=
+  match vds with
+  | [] => []
+  | fields :: r => let ix := field_indices prev fields chosen in
+                   (match chosen_indices 0 fields chosen with [] => [] | _ => ix end) :: fields_walk ix r chosen
+  end.
